@@ -57,7 +57,7 @@ def run(ctx):
 
     summ = sc.run_driver(ctx, "mux", [uni, reg, out] + vecs)
     mism = verif.read_ndjson(out)
-    ctx.log("driver: %d evaluations (2 namespaces x 3 reader styles), %d registration cases, %d mismatches" % (
+    ctx.log("driver: %d evaluations (2 namespaces x 3 reader styles + formatted XML for iqs), %d registration cases, %d mismatches" % (
         summ["evaluations"], summ["registration_cases"], summ["mismatches"]))
     sc.report_grouped(ctx, mism, signature, describe)
 
